@@ -108,7 +108,7 @@ def run(chk):
                     rets = ('vector', 'scalar0d', 'pyscalar')
                     if cond == 'dirichlet':
                         variants += [(1, None, r) for r in rets]
-                        variants += [(2, None, 'vector'), (2, 1, 'vector'), (2, -1, 'vector')]     # -1: the last component
+                        variants += [(2, None, 'vector'), (2, 1, 'vector'), (2, -1, 'vector'), (3, -2, 'vector')]     # negative: counted from the last component
                         # a length-one array must behave like the scalar it holds, also when several components are selected
                         variants += [(2, None, 'len1'), (3, slice(0, 2), 'len1')]
                         if thorough:
